@@ -224,6 +224,12 @@ let parse_pool (p : string) : coq_N list array =
     out
   end
 
+(* a key index that does not even fit a usize is "not representable": use usize_max, which
+   no key type represents (every capacity is <= usize_max) *)
+let key_arg (t : string) : coq_N =
+  if t <> "" && String.for_all (fun c -> c >= '0' && c <= '9') t then (try n_of_string t with _ -> usize_max)
+  else failwith "bad key"
+
 let mutating = [ "NR"; "NT"; "I"; "IS"; "IA"; "IP"; "ISP"; "CLR"; "LIM"; "CL"; "CF"; "DROP"; "RD"; "RS"; "DE"; "FI"; "EX" ]
 
 let starts_with p s = String.length s >= String.length p && String.sub s 0 (String.length p) = p
@@ -266,9 +272,14 @@ let run_case oc (line : string) =
           let is_threaded i = match kind_of i with Rodeo.OThreaded _ -> true | _ -> false in
           let pool_ok i = i >= 0 && i < Array.length pool in
           let text =
+            try
             match a.(0) with
-            | "NR" -> out_s (do_step (Rodeo.NewRodeo (n_of_string a.(1), lim_of_string a.(2))))
-            | "NT" -> out_s (do_step (Rodeo.NewThreaded (n_of_string a.(1), lim_of_string a.(2))))
+            | "NR" | "NT" ->
+                ignore (n_of_string a.(3)); ignore (n_of_string a.(4));
+                let cap = n_of_string a.(1) in
+                if BinNat.N.eqb cap N0 then "X"
+                else if a.(0) = "NR" then out_s (do_step (Rodeo.NewRodeo (cap, lim_of_string a.(2))))
+                else out_s (do_step (Rodeo.NewThreaded (cap, lim_of_string a.(2))))
             | "I" -> out_s (do_step (Rodeo.Intern (slot 1, bytes_of_hex a.(2))))
             | "IP" -> out_s (do_step (Rodeo.InternP (slot 1, bytes_of_hex a.(2))))
             | "IS" ->
@@ -289,15 +300,33 @@ let run_case oc (line : string) =
                 let s = sloti 2 in
                 if pool_ok s then out_s (do_step (Rodeo.Contains (slot 1, pool.(s)))) else "X"
             | "GK" -> (
-                match do_step (Rodeo.TryResolve (slot 1, n_of_string a.(2))) with
-                | Rodeo.OStr s -> (
-                    match kind_of (sloti 1) with
-                    | Rodeo.OResolver _ -> "X"
-                    | _ -> out_s (do_step (Rodeo.Get (slot 1, take (int_of_string a.(3)) s))))
-                | _ -> "X")
-            | "R" | "RU" | "IX" -> out_s (do_step (Rodeo.Resolve (slot 1, n_of_string a.(2))))
-            | "TR" -> out_s (do_step (Rodeo.TryResolve (slot 1, n_of_string a.(2))))
-            | "CK" -> out_s (do_step (Rodeo.ContainsKey (slot 1, n_of_string a.(2))))
+                match kind_of (sloti 1) with
+                | Rodeo.OResolver _ | Rodeo.ODead -> "X"
+                | _ -> (
+                    match (try Some (n_of_string a.(2)) with _ -> None), int_of_string_opt a.(3) with
+                    | Some k, Some n -> (
+                        match do_step (Rodeo.TryResolve (slot 1, k)) with
+                        | Rodeo.OStr s ->
+                            let len = L.length s in
+                            let cont b = int_of_n b land 0xC0 = 0x80 in
+                            if n > len || n < 0 || (n < len && cont (L.nth s n)) then "X"
+                            else out_s (do_step (Rodeo.Get (slot 1, take n s)))
+                        | _ -> "X")
+                    | _ -> "X"))
+            (* an index the key type cannot represent (try_from_usize = None) cannot be turned into
+               a key at all: fixed answers, the crate is not called (FORMAT.md) *)
+            | "R" | "RU" | "IX" ->
+                let k = key_arg a.(2) in
+                if kind_of (sloti 1) = Rodeo.ODead then "X"
+                else if not (BinNat.N.ltb k keycap) then "P" else out_s (do_step (Rodeo.Resolve (slot 1, k)))
+            | "TR" ->
+                let k = key_arg a.(2) in
+                if kind_of (sloti 1) = Rodeo.ODead then "X"
+                else if not (BinNat.N.ltb k keycap) then "N" else out_s (do_step (Rodeo.TryResolve (slot 1, k)))
+            | "CK" ->
+                let k = key_arg a.(2) in
+                if kind_of (sloti 1) = Rodeo.ODead then "X"
+                else if not (BinNat.N.ltb k keycap) then "F" else out_s (do_step (Rodeo.ContainsKey (slot 1, k)))
             | "LEN" -> out_s (do_step (Rodeo.Len (slot 1)))
             | "EMP" -> out_s (do_step (Rodeo.IsEmpty (slot 1)))
             | "IT" -> out_s ~keyed:true (do_step (Rodeo.IterOp (slot 1, parse_plan a.(2))))
@@ -317,13 +346,17 @@ let run_case oc (line : string) =
             | "DE" -> (
                 let kind =
                   match a.(1) with
-                  | "rodeo" -> Rodeo.KRodeo
-                  | "threaded" -> Rodeo.KThreaded
-                  | "reader" -> Rodeo.KReader
-                  | "resolver" -> Rodeo.KResolver
-                  | _ -> failwith "bad kind"
+                  | "rodeo" -> Some Rodeo.KRodeo
+                  | "threaded" -> Some Rodeo.KThreaded
+                  | "reader" -> Some Rodeo.KReader
+                  | "resolver" -> Some Rodeo.KResolver
+                  | _ -> None
                 in
-                let d = a.(2) in
+                let d = if Array.length a > 2 then a.(2) else "" in
+                match kind with
+                | None -> "X"
+                | Some kind ->
+                if not (starts_with "L:" d || starts_with "M:" d) then "X" else
                 let body = String.sub d 2 (String.length d - 2) in
                 if starts_with "L:" d then begin
                   let l = if body = "" then [] else L.map bytes_of_hex (split_on ',' body) in
@@ -331,24 +364,26 @@ let run_case oc (line : string) =
                 end
                 else begin
                   (* the parser's contract: repeated strings last-wins; the key's own
-                     Deserialize rejects raw values outside [1, keycap] (Keys.v serde_de) *)
+                     Deserialize rejects raw values outside [1, keycap] (Keys.v serde_wire) *)
                   let pairs =
                     if body = "" then []
                     else
                       L.map
                         (fun p ->
                           match split_on '=' p with
-                          | [ h; raw ] -> (bytes_of_hex h, n_of_string raw)
+                          | [ h; raw ] -> (bytes_of_hex h, (try Some (n_of_string raw) with _ -> None))
                           | _ -> failwith "bad pair")
                         (split_on ',' body)
                   in
                   let bad_raw =
                     L.exists
-                      (fun (_, raw) -> BinNat.N.eqb raw N0 || BinNat.N.ltb keycap raw)
+                      (fun (_, raw) -> match raw with None -> true | Some raw -> BinNat.N.eqb raw N0 || BinNat.N.ltb keycap raw)
                       pairs
                   in
-                  if bad_raw then "DE:err"
+                  if kind <> Rodeo.KThreaded then out_s (do_step (Rodeo.De (kind, Rodeo.DMap [])))
+                  else if bad_raw then "DE:err"
                   else begin
+                    let pairs = L.map (fun (s, raw) -> match raw with Some r -> (s, r) | None -> (s, N0)) pairs in
                     let rec dedupe l =
                       match l with
                       | [] -> []
@@ -357,15 +392,18 @@ let run_case oc (line : string) =
                     let pairs = L.map (fun (s, raw) -> (s, BinNat.N.sub raw (n_of_int 1))) (dedupe pairs) in
                     let out = do_step (Rodeo.De (kind, Rodeo.DMap pairs)) in
                     (match out with
-                    | Rodeo.ONew n -> if kind = Rodeo.KThreaded then Hashtbl.replace unordered (int_of_n n) ()
+                    | Rodeo.ONew n -> Hashtbl.replace unordered (int_of_n n) ()
                     | _ -> ());
                     out_s out
                   end
                 end)
             | "EQ" -> out_s (do_step (Rodeo.EqOp (slot 1, slot 2)))
-            | "FI" -> out_s (do_step (Rodeo.FromIter (a.(1) = "t", hexlist a.(3))))
+            | "FI" ->
+                if not (L.mem a.(1) [ "r"; "t" ] && L.mem a.(2) [ "exact"; "none"; "low"; "high" ]) then "X"
+                else out_s (do_step (Rodeo.FromIter (a.(1) = "t", hexlist a.(3))))
             | "EX" -> out_s (do_step (Rodeo.Extend (slot 1, hexlist a.(2))))
-            | other -> failwith ("unknown op " ^ other)
+            | _ -> "X"
+            with Failure _ | Invalid_argument _ | Not_found -> "X"
           in
           Printf.fprintf oc "%s %d %s\n" id opno text;
           if L.mem a.(0) mutating then digests (string_of_int opno))
